@@ -790,8 +790,7 @@ def run(case):
     for mode in ("sync", "async"):
         got = _execute(case, mode, bound)
         runs[mode] = got
-        if len(got) != len(wants):
-            raise Violation("harness", "resolution count mismatch", "count")
+        assert len(got) == len(wants), "harness: resolution count mismatch"
         for rno, (w, g) in enumerate(zip(wants, got)):
             _check_budget(case, mode, rno, g)
             _check_against_model(case, mode, rno, w, g)
@@ -818,7 +817,8 @@ def _check_second(case, mode, wants, got):
     if w2["stats"]["cache_hit"] and w2["outcome"]["kind"] == "answer":
         prev = g1.get("obj")
         if prev is None:
-            # first resolution raised NoAnswer (negative answer cached) or came from ...
+            # the first resolution raised NoAnswer (the negative answer was cached, but no
+            # Answer object was handed out); the reply ordinal has been compared already
             return
         if g2.get("obj") is not prev:
             raise Violation(
@@ -844,9 +844,11 @@ def _classify(case, plan):
                 classes.add("unusable:" + t["why"])
             if t["kind"] == "servfail":
                 classes.add("servfail_kept" if t["action"] == M.KEEP else "servfail_dropped")
-            if t["kind"] in ("answer", "nodata", "nxdomain") and t["chain"]:
+            if case["rdtype"] == "CNAME":
+                pass  # a CNAME question is answered by the first link; nothing is followed
+            elif t["kind"] in ("answer", "nodata", "nxdomain") and t["chain"]:
                 classes.add("chain:15" if t["chain"] == 15 else "chain:1-14")
-            if t["kind"] == "unusable" and t["why"] == "ChainTooLong" and t["chain"] == 16:
+            elif t["kind"] == "unusable" and t["why"] == "ChainTooLong" and t["chain"] == 16:
                 classes.add("chain:16")
             if case["ns"][t["server"]]["maxsize"]:
                 classes.add("maxsize_server_queried")
@@ -1138,33 +1140,35 @@ def cases(maxlen):
     )
 
 
+# minimums: about one eighth of what the quick tier reaches at seed 1; a generator change that
+# starves a class turns the run into a harness error instead of a vacuous green
 _REQUIRE_SCRIPTS = {
-    "out:answer": 200, "out:nodata": 100, "out:nxdomain": 200, "out:servfail": 200,
-    "out:rcode": 100, "out:yxdomain": 30, "out:formerr": 100, "out:truncated": 200,
-    "out:timeout": 200, "out:oserror": 100, "out:eof": 100, "out:notimpl": 100,
-    "out:unusable": 100,
-    "unusable:ChainTooLong": 20, "unusable:NotQueryResponse": 10, "unusable:FormError": 10,
-    "unusable:AnswerForNXDOMAIN": 10,
-    "chain:15": 5, "chain:16": 5, "chain:1-14": 50,
-    "final:answer": 200, "final:negative-answer": 20, "final:NoAnswer": 50,
-    "final:NXDOMAIN": 50, "final:YXDOMAIN": 20, "final:NoNameservers": 100,
-    "final:LifetimeTimeout": 100,
-    "tcp_retry": 100, "truncated_over_tcp_drop": 50, "backoff": 200, "backoff>=3": 50,
-    "backoff_capped_2s": 20, "names_queried>=2": 100, "failure_kinds>=2": 200,
-    "servfail_kept": 50, "servfail_dropped": 50, "maxsize_server_queried": 50,
-    "slow_reply_as_timeout": 50, "nxdomain_then_other_result": 50,
-    "second:cache_hit_no_query": 50, "second:fresh_query_after_expiry": 50,
-    "second:nxdomain_cache_hit": 20, "second:no_cache": 50,
-    "cache:Cache": 100, "cache:LRUCache": 100, "cache:None": 100,
-    "duplicate_candidate": 10, "queries>=10": 50,
-    "__nontrivial__": 500,
+    "out:answer": 1500, "out:nodata": 600, "out:nxdomain": 900, "out:servfail": 1000,
+    "out:rcode": 500, "out:yxdomain": 300, "out:formerr": 500, "out:truncated": 900,
+    "out:timeout": 2000, "out:oserror": 500, "out:eof": 500, "out:notimpl": 500,
+    "out:unusable": 1000,
+    "unusable:ChainTooLong": 500, "unusable:NotQueryResponse": 120, "unusable:FormError": 250,
+    "unusable:AnswerForNXDOMAIN": 200,
+    "chain:15": 200, "chain:16": 200, "chain:1-14": 1000,
+    "final:answer": 1000, "final:negative-answer": 100, "final:NoAnswer": 250,
+    "final:NXDOMAIN": 400, "final:YXDOMAIN": 200, "final:NoNameservers": 900,
+    "final:LifetimeTimeout": 800,
+    "tcp_retry": 500, "truncated_over_tcp_drop": 400, "backoff": 1400, "backoff>=3": 350,
+    "backoff_capped_2s": 150, "names_queried>=2": 350, "failure_kinds>=2": 1600,
+    "servfail_kept": 500, "servfail_dropped": 500, "maxsize_server_queried": 1000,
+    "slow_reply_as_timeout": 1000, "nxdomain_then_other_result": 250,
+    "second:cache_hit_no_query": 350, "second:fresh_query_after_expiry": 400,
+    "second:nxdomain_cache_hit": 200, "second:no_cache": 500,
+    "cache:Cache": 1000, "cache:LRUCache": 1000, "cache:None": 800,
+    "duplicate_candidate": 600, "queries>=10": 150,
+    "__nontrivial__": 2000,
 }
 _REQUIRE_ENUM = {
-    "final:answer": 1000, "final:NoAnswer": 100, "final:NXDOMAIN": 100, "final:YXDOMAIN": 100,
-    "final:NoNameservers": 100, "final:LifetimeTimeout": 50, "tcp_retry": 500, "backoff": 500,
-    "truncated_over_tcp_drop": 100, "second:cache_hit_no_query": 500,
-    "second:nxdomain_cache_hit": 50, "names_queried>=2": 100, "servfail_kept": 100,
-    "servfail_dropped": 100, "__nontrivial__": 5000,
+    "final:answer": 3000, "final:NoAnswer": 2000, "final:NXDOMAIN": 1000, "final:YXDOMAIN": 2000,
+    "final:NoNameservers": 10000, "final:LifetimeTimeout": 500, "tcp_retry": 1500,
+    "backoff": 4000, "truncated_over_tcp_drop": 1500, "second:cache_hit_no_query": 2000,
+    "second:nxdomain_cache_hit": 800, "names_queried>=2": 1200, "servfail_kept": 1500,
+    "servfail_dropped": 1500, "nxdomain_then_other_result": 1000, "__nontrivial__": 10000,
 }
 
 
@@ -1182,7 +1186,7 @@ def parts(tier):
             "scripts",
             run,
             strategy=cases(maxlen),
-            n={"quick": 48000, "thorough": 480000},
+            n={"quick": 40000, "thorough": 480000},
             require=_REQUIRE_SCRIPTS,
             shards={"quick": 16, "thorough": 16},
         ),
